@@ -83,6 +83,45 @@ CHECKS = {
              'are outside; zero-area holes are the stated excluded class; the multi-polygon round trip is proved for non-GeoRing members.',
         technique='Lean 4 proof (export/import model with the document-after-the-call explicit; dict algebra, shoelace identity, induction over members) + differential correspondence + independent RFC 7946 / == oracles',
         design='§6 C14'),
+    'C17': dict(
+        text='Lean 4 theorems over an executable model of Track. The ordering invariant track_sorted holds for every input list and every '
+             'operation history (add, the five filters, slice, convolve, journeys, filter_by_time; failing operations included), by '
+             'induction over the op list. slice_exact: a slice equals the filter a? <= start and end < b? with an omitted bound meaning '
+             'unbounded. journeys_spec: the first shape is kept and each later shape is kept iff it is reachable from the previously kept '
+             'one. convolve_nodup / convolve_members: one shape per distinct timestamp over the same timestamps. Stability and rejection of '
+             'time-less shapes are proved. Tied to collections.py by exhaustive small worlds (all orders, all slice bounds, all pairwise '
+             'speeds) and by random tracks and histories compared after every step.',
+        note='Centroid distances are parameters measured on the implementation; speeds are compared exactly and limits generated only where '
+             'float and exact comparison agree (NaN not modelled); for filter_by_time only order and class preservation are claimed. '
+             'Trusted: Lean kernel, Mathlib, CPython datetime and float semantics, the harness abstraction.',
+        technique='Lean 4 proof (invariant by induction over operation lists; loop refinement to structural recursion) + exhaustive/random differential correspondence against Track + independent Python spec',
+        design='§6 C17'),
+    'C18': dict(
+        text='Lean 4 theorems for every per-shape predicate and both collection classes. Each filter equals List.filter p re-wrapped in the '
+             'receiver class: exact members, original order, multiplicity preserved, KeyError iff a member lacks the key, a datetime argument '
+             'means dt equals the instant. Bounds are the least box enclosing all member boxes (ValueError on an empty collection). The hull '
+             'wrapper hands over every member vertex, flattening multi-shapes. len / iter / bool / in / + / [] are the underlying list ones '
+             '(negative indexes, slices, IndexError). Correspondence on random FeatureCollections and Tracks of 0-12 mixed shapes x every '
+             'operation, predicate tables measured in both argument orders, non-mutation checked by deep snapshots around every call.',
+        note='Per-shape predicates, bounds, vertices and == classes are taken as measured (they are the business of C01-C05, C09, C15). The '
+             'hull contains member vertices claim is C10 theorem, additionally checked end-to-end here with exact arithmetic. Purity is '
+             'structural in the model and tested on the implementation.',
+        technique='Lean 4 proof (model = List.filter spec; order-theoretic characterisation of bounds) + random/exhaustive differential correspondence + independent list-comprehension spec',
+        design='§6 C18'),
+    'C20': dict(
+        text='PARTIAL claim. Lean 4 theorems about this repository own logic on our side of the three library boundaries (pyshp, '
+             'geopandas/shapely, fastkml): groupByFamily is stable and a permutation; the write-reversal of rings followed by the constructor '
+             'normalisation restores equal polygons, holes included; Z/M lists read front to back land on the vertices they were written '
+             'from; time bounds survive the two string fields / KML time stamps; field typing is total and type-compatible; and the composed '
+             'shp / gpd / kml round-trip theorems hold UNDER explicit channel contracts for the libraries. Adapter streams exercise our '
+             'code against the model with the library replaced by a recording stand-in; the contracts and the end-to-end statement are '
+             'tested against the real libraries.',
+        note='The libraries are not modelled: their behaviour enters the composed theorems as hypotheses (channel contracts) that are only '
+             'tested (np-contract-* streams), and the end-to-end statement is judged by np-e2e-* streams. Eight documented deviations of the '
+             'real round trips are known findings. Generator restrictions (dbf key/length limits, no M end to end, holes inside shells, '
+             'parts disjoint) are stated in the evidence.',
+        technique='Lean 4 proof (adapter logic + round trip under channel contracts) + differential correspondence with recording stand-ins + contract/end-to-end tests on the real libraries',
+        design='§6 C20'),
     'C06': dict(
         text='Lean 4 theorems: every TimeInterval operator of the model equals the dense-time set model '
              '[start,end) / {start} for all intervals and instants (membership, subset, superset, disjoint, '
